@@ -190,14 +190,25 @@ def _rest(col, crate, adt, gi, DIMS, DATA, sfx):
                 col.violation("Y2" + sfx, "%s|data-indexed-directly" % fk(b), loc, "%s indexes the data vector with %s, not with the checked flattening routine's result" % (b.path, tstr(ix)))
 
     # ---------------- Y3
+    def _agg_sites(b_):
+        return [(bb, idx) for bb, idx, s in b_.statements() if s["k"] == "assign" and s["rv"]["k"] == "agg" and s["rv"]["ak"]["k"] == "adt" and s["rv"]["ak"]["def"] == adt["key"]]
+
+    y3_helpers = util.private_helpers(crate, "Tensor", exclude=[gi]) + [f_ for f_ in crate.bodies if not f_.is_closure and f_.kind == "Fn" and f_.container is None and f_.vis != "pub" and not util.self_recursive(f_)]
+    y3_helper_keys = {h.key for h in y3_helpers}
     for b in crate.bodies:
         imp = crate.impl_of(b)
         if imp is not None and imp.get("derived"):
             continue
-        sites = [(bb, idx) for bb, idx, s in b.statements() if s["k"] == "assign" and s["rv"]["k"] == "agg" and s["rv"]["ak"]["k"] == "adt" and s["rv"]["ak"]["def"] == adt["key"]]
+        if b.key in y3_helper_keys:
+            continue  # a private constructor helper is judged in the context of each of its callers
+        sites = _agg_sites(b)
         if not sites:
-            continue
-        Ib = util.analyser(util.private_helpers(crate, "Tensor", exclude=[gi]) + [f_ for f_ in crate.bodies if not f_.is_closure and f_.kind == "Fn" and f_.container is None and f_.vis != "pub" and not util.self_recursive(f_)])(b)
+            # a constructor that builds the aggregate in a private helper
+            via = [h for h in util.helper_callees(crate, b, y3_helpers) if _agg_sites(h)]
+            if not via:
+                continue
+            sites = [(0, None)]
+        Ib = util.analyser(y3_helpers)(b)
         for st in Ib.final_states:
             ret = util.ret_term(st)
             if not (ret[0] == "agg" and ret[1][0] == "adt" and ret[1][1].endswith("Tensor")):
